@@ -67,7 +67,14 @@ BestIdx(T, dupf, asc, v) ==
     LET cand == { i \in DOMAIN T : Get(T[i], dupf) = v }
         top  == { i \in cand : \A j \in cand : IF asc THEN T[i].score <= T[j].score ELSE T[i].score >= T[j].score }
     IN  SetMin(top)
-DropDupOf(T, dupf, asc) == LET vs == SortSeqOfSet(ColVals(T, dupf))
+\* distinct values of a column in ascending order (independent of the magnitude of the values)
+SortedDistinct(T, f) ==
+    LET col == [i \in DOMAIN T |-> Get(T[i], f)]
+        srt == SortSeq(col, LAMBDA a, b : a < b)
+        keep == { k \in DOMAIN srt : k = 1 \/ srt[k] # srt[k - 1] }
+        idx == SelectSeq([k \in DOMAIN srt |-> k], LAMBDA k : k \in keep)
+    IN  [m \in DOMAIN idx |-> srt[idx[m]]]
+DropDupOf(T, dupf, asc) == LET vs == SortedDistinct(T, dupf)
                            IN  [k \in DOMAIN vs |-> T[BestIdx(T, dupf, asc, vs[k])]]
 
 \* object-number shift used by both merges: an input whose smallest object number does not exceed the running
